@@ -2,6 +2,7 @@
    Theorems only. *)
 From NF Require Import Base Nom Types Layout Value V9 Ipfix Parser Export Common.
 From NF Require Import MiscFacts.
+From Coq Require Import Lia.
 Open Scope string_scope.
 Open Scope list_scope.
 
@@ -42,13 +43,51 @@ Proof. exact get_last_some. Qed.
 Print Assumptions C13_selection_present.
 
 (* IPv4 before IPv6; addresses, MACs come from values of the matching kind only *)
-Theorem C13_addresses : forall vs s4 s6 d4 d6 sp dp pr fi la sm dm rec,
-  c_src (common_flow vs s4 s6 d4 d6 sp dp pr fi la sm dm rec)
+Theorem C13_addresses : forall vs pn up s4 s6 d4 d6 sp dp pr fi la sm dm rec,
+  c_src (common_flow vs pn up s4 s6 d4 d6 sp dp pr fi la sm dm rec)
   = opt_bind (opt_or (get_last (vdisc vs s4) rec) (get_last (vdisc vs s6) rec)) fval_ip
-  /\ c_smac (common_flow vs s4 s6 d4 d6 sp dp pr fi la sm dm rec)
+  /\ c_smac (common_flow vs pn up s4 s6 d4 d6 sp dp pr fi la sm dm rec)
   = opt_bind (get_last (vdisc vs sm) rec) fval_string.
 Proof. intros. split; reflexivity. Qed.
 Print Assumptions C13_addresses.
+
+(* V9: the protocol and the first/last-switched times are present whenever the record has the
+   field (repair 39ac76d): a PROTOCOL value decoded as the protocol named d (any but Unknown,
+   which does not keep its number) gives that protocol's number and name; a FIRST/LAST_SWITCHED
+   value decoded as a duration gives its millisecond count whenever that fits 32 bits (always,
+   for the 4-byte width RFC 3954 gives those fields) *)
+Theorem C13_v9_protocol_and_times : forall rec d secs nanos,
+  (get_last (vdisc v9_variants "Protocol") rec = Some (VProto d) -> d <> vdisc proto_variants "Unknown" ->
+     c_pnum (v9_common_flow rec) = Some (proto_to_u8 d)
+     /\ c_ptype (v9_common_flow rec) = Some (proto_from_u8 (proto_to_u8 d)))
+  /\ (get_last (vdisc v9_variants "FirstSwitched") rec = Some (VDur secs nanos) ->
+      (secs * 1000 + nanos / 1000000 < 2 ^ 32)%N ->
+      c_first (v9_common_flow rec) = Some (secs * 1000 + nanos / 1000000)%N)
+  /\ (get_last (vdisc v9_variants "LastSwitched") rec = Some (VDur secs nanos) ->
+      (secs * 1000 + nanos / 1000000 < 2 ^ 32)%N ->
+      c_last (v9_common_flow rec) = Some (secs * 1000 + nanos / 1000000)%N).
+Proof.
+  intros rec d secs nanos. unfold v9_common_flow, common_flow. cbn [c_pnum c_ptype c_first c_last].
+  split; [|split].
+  - intros H Hd. rewrite H. cbn [opt_bind v9_pnum option_map].
+    destruct (N.eqb_spec d (vdisc proto_variants "Unknown")); [contradiction|]. split; reflexivity.
+  - intros H Hb. rewrite H. cbn [opt_bind v9_upt]. apply N.ltb_lt in Hb. cbv zeta. now rewrite Hb.
+  - intros H Hb. rewrite H. cbn [opt_bind v9_upt]. apply N.ltb_lt in Hb. cbv zeta. now rewrite Hb.
+Qed.
+Print Assumptions C13_v9_protocol_and_times.
+
+(* the 4-byte FIRST/LAST_SWITCHED of RFC 3954: decoded as milliseconds, the view returns the
+   number that was on the wire *)
+Theorem C13_v9_uptime_roundtrip : forall n, (n < 2 ^ 32)%N ->
+  v9_upt (dur_of DDurMillis n) = Some n.
+Proof.
+  intros n Hn. unfold dur_of, v9_upt. cbv zeta.
+  assert (E : (n / 1000 * 1000 + n mod 1000 * 1000000 / 1000000 = n)%N).
+  { rewrite N.div_mul by lia. pose proof (N.div_mod n 1000 ltac:(lia)). lia. }
+  rewrite E. apply N.ltb_lt in Hn. now rewrite Hn.
+Qed.
+Print Assumptions C13_v9_uptime_roundtrip.
+
 
 (* errors convert to an error; the flat view is the in-order concatenation over the non-error
    packets of the buffer *)
@@ -84,14 +123,15 @@ Print Assumptions C13_field_anchors.
 
 (* The full statement ("absent only when the record has no such field", "one flow per record")
    is FALSE of the faithful model: the known-finding classes, each with its witness.
-   K_C13_v9_protocol: a V9 record whose Protocol field decoded as a protocol name has no
-   protocol number in the common flow; K_C13_v9_switched: first/last switched decoded as
-   durations are absent; K_C13_v9_width: a 4-byte port is absent; K_C13_ipfix_per_field: an IPFIX
-   data set of one record with three fields gives three flows. *)
+   K_C13_v9_protocol (narrowed by repair 39ac76d to the one protocol byte, 145, that decodes to
+   Unknown): the record has the field, the view has no number; K_C13_v9_switched (narrowed to
+   durations whose millisecond count exceeds 32 bits: an 8-byte FIRST_SWITCHED); K_C13_v9_width: a
+   4-byte port is absent; K_C13_ipfix_per_field: an IPFIX data set of one record with three
+   fields gives three flows. *)
 Theorem C13_refuted :
-  (let rec := [(vdisc v9_variants "Protocol", VProto 6)] in
+  (let rec := [(vdisc v9_variants "Protocol", VProto (vdisc proto_variants "Unknown"))] in
    get_last (vdisc v9_variants "Protocol") rec <> None /\ c_pnum (v9_common_flow rec) = None /\ c_ptype (v9_common_flow rec) = None)
-  /\ (let rec := [(vdisc v9_variants "FirstSwitched", VDur 1 0)] in
+  /\ (let rec := [(vdisc v9_variants "FirstSwitched", dur_of DDurMillis (2 ^ 40))] in
       get_last (vdisc v9_variants "FirstSwitched") rec <> None /\ c_first (v9_common_flow rec) = None)
   /\ (let rec := [(vdisc v9_variants "L4SrcPort", VNum (U32 443))] in
       get_last (vdisc v9_variants "L4SrcPort") rec <> None /\ c_sport (v9_common_flow rec) = None)
@@ -103,3 +143,4 @@ Theorem C13_refuted :
       length (c_flows (common_ipfix p)) = 3%nat).
 Proof. vm_compute. repeat split; discriminate. Qed.
 Print Assumptions C13_refuted.
+
